@@ -14,7 +14,14 @@ FUNCS = {
     "include/sodium/private/ed25519_ref10_fe_51.h": ["fe25519_0", "fe25519_1", "fe25519_add", "fe25519_sub", "fe25519_neg", "fe25519_cmov", "fe25519_cswap", "fe25519_copy",
                                                      "fe25519_isnegative", "fe25519_iszero", "fe25519_mul", "fe25519_sq", "fe25519_sq2", "fe25519_mul32"],
     "crypto_core/ed25519/ref10/fe_51/fe.h": ["fe25519_frombytes", "fe25519_reduce", "fe25519_tobytes"],
-    "crypto_core/ed25519/ref10/ed25519_ref10.c": ["fe25519_invert"],
+    "crypto_core/ed25519/ref10/ed25519_ref10.c": ["fe25519_invert", "fe25519_pow22523",
+        "ge25519_p1p1_to_p2", "ge25519_p1p1_to_p3", "ge25519_p2_to_p3", "ge25519_p3_to_p2", "ge25519_p3_to_cached", "ge25519_p3_to_precomp",
+        "ge25519_p2_0", "ge25519_p3_0", "ge25519_cached_0", "ge25519_precomp_0", "ge25519_p2_dbl", "ge25519_p3_dbl", "ge25519_add_cached", "ge25519_sub_cached",
+        "ge25519_add_precomp", "ge25519_sub_precomp", "ge25519_p3_add", "ge25519_p3_sub", "ge25519_cmov", "ge25519_cmov_cached", "ge25519_cmov8", "ge25519_cmov8_base",
+        "ge25519_cmov8_cached", "ge25519_scalarmult", "ge25519_scalarmult_base", "slide_vartime", "ge25519_double_scalarmult_vartime", "ge25519_mul_l",
+        "ge25519_is_on_curve", "ge25519_is_on_main_subgroup", "ge25519_has_small_order", "ge25519_tobytes", "ge25519_p3_tobytes", "ge25519_frombytes",
+        "ge25519_frombytes_negate_vartime", "equal", "negative"],
+    "crypto_core/ed25519/core_ed25519.c": ["crypto_core_ed25519_add", "crypto_core_ed25519_sub"],
     "crypto_onetimeauth/poly1305/donna/poly1305_donna64.h": ["poly1305_init", "poly1305_blocks", "poly1305_finish"],
     "crypto_scalarmult/curve25519/sandy2x/curve25519_sandy2x.c": ["crypto_scalarmult_curve25519_sandy2x"],
     "crypto_scalarmult/curve25519/ref10/x25519_ref10.c": ["crypto_scalarmult_curve25519_ref10", "has_small_order"],
@@ -26,7 +33,8 @@ WHOLE = {
     "C03": ["crypto_stream/chacha20/dolbeau/u0.h", "crypto_stream/chacha20/dolbeau/u1.h", "crypto_stream/chacha20/dolbeau/u4.h", "crypto_stream/chacha20/dolbeau/u8.h",
             "crypto_stream/chacha20/dolbeau/chacha20_dolbeau-avx2.c", "crypto_stream/chacha20/dolbeau/chacha20_dolbeau-ssse3.c"],
 }
-OWNER = {"poly1305": "C04", "fe25519": "C05", "crypto_scalarmult": "C05", "has_small_order": "C05"}
+OWNER = {"poly1305": "C04", "fe25519_pow22523": "C06", "fe25519": "C05", "crypto_scalarmult": "C05", "has_small_order": "C05", "ge25519": "C06", "slide_vartime": "C06",
+         "equal": "C06", "negative": "C06", "crypto_core_ed25519": "C06"}
 
 
 def strip(s):
